@@ -208,7 +208,7 @@ void ptg_flow(int th, int flow, int mode, void *ptr)
     ptg_scratch_t *s = &ptg_scr[th % PTG_MAXTH];
     if (flow >= PTG_MAXF) return;
     s->mode[flow] = mode; s->ptr[flow] = (int32_t *)ptr;
-    if (ptr != NULL && (mode & PTG_NEW)) ((int32_t *)ptr)[0] = 0;      /* a copy allocated for this task (NEW): the body initialises it */
+    if (ptr != NULL && (mode & PTG_NEW)) for (int j = 0; j < PTG_TILE; j++) ((int32_t *)ptr)[j] = j;   /* a copy allocated for this task (NEW): the body initialises it as the whole tile of value 0 */
     s->in[flow] = (ptr != NULL && (mode & PTG_READ)) ? ((int32_t *)ptr)[0] : PTG_NONE;
     if (ptr != NULL && (mode & PTG_READ))       /* a copy that is not whole (element j != element 0 + j) is seen as a value nobody writes */
         for (int j = 1; j < PTG_TILE; j++) if (((int32_t *)ptr)[j] != ((int32_t *)ptr)[0] + j) { s->in[flow] = -1000000 - j; break; }
